@@ -6,7 +6,8 @@ from .. import gen, oracle, tt as T
 from .base import Mgr, replay  # noqa: F401
 
 RULE = ('functions by truth table (<=4 variables; all 256 of 3 variables in thorough) x every '
-        'care set (subset/superset of the support) x every n up to support+3 x order x sign; '
+        'care set (subset/superset of the support) x every n up to support+3 x order x sign; also '
+        'the same functions placed at scattered levels of managers declaring 9..33 variables; '
         'non-trivial = non-constant function')
 EXHAUSTIVE = {'quick': False, 'thorough': False}
 ASSUMES = []
@@ -24,11 +25,23 @@ def models(t, n, over):
     return out
 
 
-def stream(ctx, n, order, tts):
-    M = Mgr(ctx, f'sat n={n} order={order}', n, order)
+def stream(ctx, n, order, tts, positions=None, total=None):
+    """`positions`/`total`: the manager declares `total` variables and the
+    function's variables 0..n-1 sit at the levels `positions` (in `order`),
+    so that the support skips levels and reaches deep ones"""
+    if positions is None:
+        M = Mgr(ctx, f'sat n={n} order={order}', n, order)
+    else:
+        full = [None] * total
+        for j in range(n):
+            full[j] = positions[order[j]]
+        rest = [l for l in range(total) if l not in positions]
+        for j in range(n, total):
+            full[j] = rest[j - n]
+        M = Mgr(ctx, f'sat n={n} order={order} at levels {positions} of {total}', total, full)
     rng = ctx.rng
     for t0 in tts:
-        u0 = M.build(t0)
+        u0 = gen.build_tt(M.s, M.m, t0, list(range(n)))
         if u0 is None:
             continue
         M.op('incref', u0)
@@ -132,3 +145,13 @@ def run(ctx):
         stream(ctx, 3, order, sorted(rng.sample(range(256), 10 if q else 256)))
     for order in rng.sample(gen.orders(4), 2 if q else 12):
         stream(ctx, 4, order, [rng.getrandbits(16) for _ in range(3 if q else 30)])
+    # supports that skip levels in managers with many declared variables
+    for _ in range(6 if q else 60):
+        n = rng.choice([2, 2, 3, 4])
+        total = rng.choice([9, 10, 12, 17, 20, 33])
+        positions = sorted(rng.sample(range(total), n))
+        if rng.random() < 0.5:
+            positions[-1] = total - 1 - rng.randrange(0, 2) if total - 2 not in positions[:-1] and total - 1 not in positions[:-1] else positions[-1]
+        order = rng.choice(gen.orders(n))
+        tts = [rng.getrandbits(1 << n) for _ in range(3 if q else 8)]
+        stream(ctx, n, order, tts, positions=sorted(set(positions)) if len(set(positions)) == n else sorted(rng.sample(range(total), n)), total=total)
